@@ -10,6 +10,8 @@ import (
 	"path/filepath"
 	"strings"
 	"time"
+	"unicode"
+	"unicode/utf8"
 
 	"github.com/yuin/goldmark"
 	"github.com/yuin/goldmark/ast"
@@ -470,6 +472,39 @@ func typoContexts(f func(string)) {
 	}
 }
 
+// codePointDocs: every Unicode code point once - in blocks of 512 as heading text, paragraph text
+// and link label - and, one document each, the code points whose upper-case, lower-case,
+// title-case or simple-fold partner has a UTF-8 encoding of another length (a case mapping done
+// in place, or into a buffer sized by the input, goes wrong exactly there), in the places where
+// goldmark folds or maps case: heading ids, reference and footnote labels, entity names, URLs.
+func codePointDocs(f func([]byte)) {
+	for base := 0x80; base < 0x110000; base += 512 {
+		if base >= 0xd800 && base < 0xe000 || (base >= 0x30000 && base < 0xe0000 && base%0x4000 != 0) || (base >= 0xf0000 && base%0x2000 != 0) {
+			continue // surrogates; unassigned planes and private use sampled thinly
+		}
+		var b []byte
+		for r := rune(base); r < rune(base+512); r++ {
+			if r >= 0xd800 && r < 0xe000 {
+				continue
+			}
+			b = utf8.AppendRune(b, r)
+		}
+		f([]byte("# " + string(b) + "\n\n" + string(b) + "\n\n[" + string(b[:len(b)/4]) + "]: /u\n"))
+	}
+	for r := rune(0x80); r < 0x110000; r++ {
+		if r >= 0xd800 && r < 0xe000 {
+			continue
+		}
+		n := utf8.RuneLen(r)
+		if utf8.RuneLen(unicode.ToLower(r)) == n && utf8.RuneLen(unicode.ToUpper(r)) == n && utf8.RuneLen(unicode.ToTitle(r)) == n && utf8.RuneLen(unicode.SimpleFold(r)) == n {
+			continue
+		}
+		x := string(r)
+		f([]byte("# a" + x + "b " + x + "\n\n" + x + x + "\n===\n\n## " + x + " #\n"))
+		f([]byte("[" + x + "]: /" + x + " \"" + x + "\"\n\n[" + x + "] [" + string(unicode.ToLower(r)) + "] [" + string(unicode.ToUpper(r)) + "][] [t][" + x + x + "]\n\n[^" + x + "]: n\n\n[^" + x + "] <http://a.b/" + x + "> www.a.b/" + x + " &" + x + "; \"" + x + "\" |" + x + "|\n|-|\n"))
+	}
+}
+
 type docOpts struct {
 	blockLines      int // exhaustive line-structured documents up to this many lines
 	randLines       int // number of random line-structured documents
@@ -506,6 +541,7 @@ func docStreams(c *Ctx, o docOpts, f func(stream string, doc []byte)) {
 		for _, d := range corp {
 			f("corpus", d)
 		}
+		codePointDocs(func(d []byte) { f("code-points", d) })
 	}
 	tok := o.randomTok
 	if tok == 0 {
